@@ -22,5 +22,37 @@ pub fn units() -> Vec<Unit> {
             Fn("BaseBandModulationParams::symbols_to_ms"),
             Fn("BaseBandModulationParams::time_on_air_us"),
         ],
+    },
+    // ---- builder B (C15/C17): pure integer functions and tables of the lora-phy drivers
+    Unit {
+        module: "Gen.PhyArith",
+        file: "lora-phy/src/sx126x/variant.rs",
+        more_files: vec!["lora-phy/src/sx126x/mod.rs", "lora-phy/src/sx127x/mod.rs"],
+        imports: vec![],
+        items: vec![
+            // SX126x PA tables and their lookup
+            Struct("PaTableEntry"),
+            Struct("PaTable"),
+            Fn("PaTable::lookup"),
+            Const("SX1261_PA_TABLE"),
+            Const("SX1262_PA_TABLE"),
+            Const("STM32WL_HP_PA_TABLE"),
+            // SX126x synthesiser word
+            Const("SX126X_XTAL_FREQ"),
+            Const("SX126X_PLL_STEP_SHIFT_AMOUNT"),
+            Const("SX126X_PLL_STEP_SCALED"),
+            Const("SX126X_MAX_LORA_SYMB_NUM_TIMEOUT"),
+            Fn("Sx126x::convert_freq_in_hz_to_pll_step"),
+            // SX127x synthesiser word, RSSI linearisation, limits and offsets
+            Const("SX127X_MIN_LORA_SYMB_NUM_TIMEOUT"),
+            Const("SX127X_MAX_LORA_SYMB_NUM_TIMEOUT"),
+            Const("SX1272_RSSI_OFFSET"),
+            Const("SX1276_RSSI_OFFSET_LF"),
+            Const("SX1276_RSSI_OFFSET_HF"),
+            Const("SX1276_RF_MID_BAND_THRESH"),
+            Fn("freq_to_pll_step"),
+            Fn("pll_step_to_freq"),
+            Fn("linearize_rssi"),
+        ],
     }]
 }
